@@ -107,6 +107,8 @@ def _t1(ctx: Context) -> None:
     if not enc_nodes:
         ck.violated("C05.T1", f"{ctx.fkey(f)}:no-encrypt", "send_bytes no longer encrypts the payload", f.loc())
         return
+    # several encrypt sites (e.g. a single-frame fast path next to the framing loop): the framing loop is where one sits in a loop
+    enc_nodes.sort(key=lambda n: not any(fr[0] == "loop" and fr[2] == "body" for fr in n.frames))
     loop_frames = [fr for fr in enc_nodes[0].frames if fr[0] == "loop" and fr[2] == "body"]
     if not loop_frames:
         ck.violated("C05.T1", f"{ctx.fkey(f)}:no-framing-loop", "send_bytes encrypts outside any loop: payloads above 1024 bytes are not split into frames", ctx.loc(f, enc_nodes[0]))
